@@ -526,6 +526,7 @@ def run(ck: Check, repo: Repo) -> None:
     rule_finder_ignore_context(ck, repo)
     # 'in addition to what the file already declared': a new .license sibling must not hide it (shared with C09-R9)
     c09.rule_sibling_hides(ck, repo, "R11")
+    rule_parse_none(ck, repo)
 
 
 # ------------------------------------------------------------------ R10: the header finder and the reader agree on ignore blocks
@@ -559,6 +560,49 @@ def rule_finder_ignore_context(ck: Check, repo: Repo, rid: str = "R10") -> None:
                     "`# REUSE-IgnoreStart\\n\\n# SPDX-License-Identifier: 0BSD\\nx=1\\n# REUSE-IgnoreEnd` + `annotate -c Jane -l MIT`: the inner"
                     " comment is replaced by the new header, `Successfully changed header`, exit 0 - and the reader, which drops the"
                     " block as a whole, reads nothing back", repo.loc(fn))
+
+
+# ------------------------------------------------------------------ R12: the parser's None (empty text) is no expression
+PARSE_NONE_EXCEPTIONS = {
+    "reuse.report.FileReport.generate": "guarded by `any(reuse_info.spdx_expressions …)`: the joined text has at least one parenthesised operand",
+    "reuse.global_licensing.ReuseDep5.reuse_info_of": "a Files paragraph without a License synopsis is rejected by python-debian when the file is parsed",
+    "reuse.global_licensing._str_to_set_of_expr": "the attrs validator of the field rejects a member that is not an Expression (parse error naming the file)",
+}
+
+
+def rule_parse_none(ck: Check, repo: Repo, rid: str = "R12") -> None:
+    """license_expression's parse() returns None for an empty or blank text - no exception.  A None that is stored as if it
+    were an expression is written out as the licence `None` (annotate --license "") or counts as 'this source provides a
+    licence' (an empty tag).  Decided: every call of the shared parser either checks its result against None before it is
+    stored / returned, or is one of the sites confirmed to be guarded otherwise."""
+    r = ck.rule(rid, "the expression parser's None (empty text) never becomes a licence: each result is checked before it is stored or returned")
+    n = 0
+    for fq, f in sorted(repo.functions.items()):
+        par = {id(c): p for p in ast.walk(f) for c in ast.iter_child_nodes(p)}
+        for c in ast.walk(f):
+            is_parse = isinstance(c, ast.Call) and ast.unparse(c.func) == "_LICENSING.parse"
+            is_map = isinstance(c, ast.Call) and ast.unparse(c.func) == "map" and c.args and ast.unparse(c.args[0]) == "_LICENSING.parse"
+            if not (is_parse or is_map) or repo.enclosing_function(c) is not f:
+                continue
+            n += 1
+            p = par.get(id(c))
+            checked = False
+            if isinstance(p, ast.Assign) and len(p.targets) == 1 and isinstance(p.targets[0], ast.Name):
+                v = p.targets[0].id
+                for t in ast.walk(f):
+                    if isinstance(t, ast.Compare) and isinstance(t.left, ast.Name) and t.left.id == v and isinstance(t.ops[0], (ast.Is, ast.IsNot)) \
+                            and isinstance(t.comparators[0], ast.Constant) and t.comparators[0].value is None:
+                        checked = True
+                    if isinstance(t, (ast.If, ast.IfExp)) and (ast.unparse(t.test) in (v, f"not {v}")):
+                        checked = True
+            exc = PARSE_NONE_EXCEPTIONS.get(fq)
+            r.instance(f"parse:{fq}@{n}", {"function": fq, "call": ast.unparse(c)[:60], "none_checked": checked, "confirmed_guard": exc}, fq)
+            if not checked and not exc:
+                r.violation(fq, f"the result of `{ast.unparse(c)[:50]}` is used without a None check",
+                            "`_LICENSING.parse('')` is None: `reuse annotate --license \"\" -c X a.py` writes `SPDX-License-Identifier: None` and"
+                            " reports success; an empty `SPDX-License-Identifier:` tag in a file is stored as the expression None, which makes the"
+                            " file count as providing a licence", repo.loc(c))
+    r.floor(4, "parser call sites", got=n)
 
 
 # ------------------------------------------------------------------ R7: writer tables vs reader tables over the SPDX list
